@@ -149,7 +149,7 @@ def lit(v):
         if not v:
             raise NoLiteral(v)
         if all(isinstance(r, list) for r in v):
-            if len(v) != 2 or any(isinstance(x, list) for r in v for x in r) or any(len(r) == 0 for r in v):
+            if len(v) != 2 or any(isinstance(x, list) for r in v for x in r) or any(len(r) < 2 for r in v):    # '{1;2}' is a flat list, not two rows
                 raise NoLiteral(v)
             return '{' + ';'.join(','.join(lit(x) for x in r) for r in v) + '}'
         if any(isinstance(x, list) for x in v):
